@@ -22,14 +22,16 @@ THOROUGH_N = 24000
 QUICK_BUDGET_S = 75
 THOROUGH_BUDGET_S = 900
 RULE = ("17 conversion entry points x source charts of 1-3 maps (0-7 hits / holds / tempo points / SVs each, dyadic "
-        "times, 4K/7K) x operation histories of 0-4 steps drawn from {read, filter, column filter, reverse sort, "
+        "times, 3K-9K incl. key counts Quaver / StepMania have no mode for) x keyword arguments of the public API "
+        "(raise_bad_mode omitted/True/False, move_right_by) x operation histories of 0-4 steps drawn from {read, filter, column filter, reverse sort, "
         "append, stack offset/column/loc edit, rate, deepcopy, slice} x shift argument in {-1,0,1,2,omitted}; "
         "non-trivial = the history leaves at least one list with labels other than 0..n-1 or the chart has >=2 "
         "non-empty lists; distinct = distinct canonical case JSON")
 ASSUMPTIONS = [
     "codecs (shift_jis encode/decode, unidecode) are parameters: metadata strings are printable ASCII, on which they are the identity",
     "a source map that has lost all its notes is skipped (key-count inference from an empty chart is not part of C08)",
-    "converters that accept raise_bad_mode are called with raise_bad_mode=False (the key-mode guard is C09's subject)",
+    "raise_bad_mode is drawn from {omitted, True, False}; when the key count has no mode in the target game (decided with the repo's own QuaMapMode.get_mode / SMMapChartTypes.get_type) and the flag is not False, the documented ValueError is the expected outcome; with False a chart with an empty mode / chart type must still be produced for every source chart",
+    "StepMania source charts use the five chart types that have a key count (get_keys is None for the others and SMToQua's int(None) is outside this property)",
     "pandas concat/iloc/boolean indexing/label-aligned column assignment are modelled (Model/Convert.lean), not verified",
 ]
 TRUSTED_EXTRA = ["translator harness/translators/converters.py (ast of reamber/algorithms/convert/*.py, _props, objs)"]
@@ -40,6 +42,9 @@ CONVS = ["BMSToOsu.convert", "BMSToQua.convert", "BMSToSM.convert", "O2JToBMS.co
          "SMToOsu.convert", "SMToQua.convert"]
 SRC_OF = {"BMS": "bms", "O2J": "o2j", "Osu": "osu", "Qua": "qua", "SM": "sm"}
 HAS_SHIFT = {"O2JToBMS.convert": 1, "OsuToBMS.convert": 0, "QuaToBMS.convert": 0}
+HAS_RBM = ("BMSToQua.convert", "OsuToQua.convert", "OsuToSM.convert", "SMToQua.convert")
+SM_TYPES = {3: "dance-threepanel", 4: "dance-single", 6: "dance-solo", 7: "kb7-single", 8: "dance-double"}
+KEYS_OF = dict(osu=[3, 4, 4, 5, 6, 7, 7, 8, 9], bms=[3, 4, 4, 5, 6, 7, 7, 8, 9], qua=[4, 7, 8], sm=[3, 4, 4, 6, 7, 7, 8], o2j=[7])
 TITLES = ["Song A", "nhelv", "Gravity", "x", "The Long Title (ver. 2)", "a-b_c"]
 ARTISTS = ["Silentroom", "Evening", "someone", "DJ 7"]
 CREATORS = ["mapper", "Eve", "c3", "anon"]
@@ -95,7 +100,7 @@ def gen_meta(rng, game, keys, per_map):
     if game == "sm":
         if per_map:
             return dict(difficulty=rng.choice(SM_DIFFS), difficulty_val=rng.randint(1, 20),
-                        chart_type="dance-single" if keys == 4 else "kb7-single", description=rng.choice(["", "d"]))
+                        chart_type=SM_TYPES[keys], description=rng.choice(["", "d"]))
         return dict(title=t, artist=a, credit=c, title_translit=t + " tr", artist_translit=a + " tr",
                     music="audio.mp3", background="bg.png", sample_start=rng.choice([0.0, 12.5]))
     if game == "o2j":
@@ -136,16 +141,18 @@ def gen_history(rng, game, nmaps):
 def gen(rng, tier, i):
     conv = CONVS[i % len(CONVS)] if rng.random() < 0.8 else rng.choice(CONVS)
     game = src_game(conv)
-    keys = rng.choice([4, 7])
+    keys = rng.choice(KEYS_OF[game])
     multi = game in ("sm", "o2j")
     nmaps = (rng.choice([1, 2, 2, 3]) if game == "sm" else 3 if game == "o2j" else 1)
     if game == "o2j" and rng.random() < 0.3:
         nmaps = rng.choice([1, 2])
     base = "objects"
-    if game == "o2j" and rng.random() < 0.06:
+    if game == "o2j" and nmaps == 3 and rng.random() < 0.06:
         base = rng.choice(["o2ma120.ojn", "o2ma178.ojn"])
     case = dict(claim="convert", conv=conv, keys=keys, base=base,
-                maps=[gen_map(rng, game, keys, small=multi) for _ in range(nmaps)],
+                maps=[gen_map(rng, game, rng.choice(KEYS_OF[game]) if game == "sm" else keys, small=multi)
+                      for _ in range(nmaps)],
+                rbm=(rng.choice([None, True, False, False]) if conv in HAS_RBM else None),
                 setmeta=gen_meta(rng, game, keys, per_map=False) if multi else {},
                 history=gen_history(rng, game, nmaps),
                 shift=(rng.choice([None, -1, 0, 1, 2]) if conv in HAS_SHIFT else None))
@@ -198,6 +205,26 @@ def corpus():
                   setmeta=_SETMETA["o2j"], history=[dict(op="stack_offset", map=2, list="hits", d=1)], shift=None))
     c.append(dict(claim="convert", conv="BMSToSM.convert", keys=4, base="objects",
                   maps=[m("bms", [], [[250, 2, 125]], [[0, 120]])], setmeta={}, history=[], shift=None))
+    # keyword arguments: key counts the target has no mode for
+    sm6 = m("sm", [[0, 5], [100, 2]], [[300, 0, 50]], [[0, 150]], difficulty="Hard", difficulty_val=9, chart_type="dance-solo")
+    sm7 = m("sm", [[50, 6]], [], [[0, 150]], difficulty="Challenge", difficulty_val=12, chart_type="kb7-single")
+    osu6 = m("osu", [[0, 0], [500, 5]], [[250, 2, 125]], [[0, 120]], [], circle_size=6)
+    osu5 = m("osu", [[0, 0], [500, 4]], [[250, 2, 125]], [[0, 120]], [], circle_size=5)
+    bms6 = m("bms", [[0, 0], [500, 5]], [[250, 2, 125]], [[0, 120]])
+    c.append(dict(claim="convert", conv="SMToQua.convert", keys=4, base="objects", maps=[sm1, sm6, sm7],
+                  setmeta=_SETMETA["sm"], history=[], shift=None, rbm=False))
+    c.append(dict(claim="convert", conv="SMToQua.convert", keys=4, base="objects", maps=[sm1, sm6, sm7],
+                  setmeta=_SETMETA["sm"], history=[], shift=None, rbm=None))
+    c.append(dict(claim="convert", conv="OsuToQua.convert", keys=6, base="objects", maps=[osu6], setmeta={},
+                  history=[], shift=None, rbm=False))
+    c.append(dict(claim="convert", conv="OsuToQua.convert", keys=6, base="objects", maps=[osu6], setmeta={},
+                  history=[], shift=None, rbm=True))
+    c.append(dict(claim="convert", conv="OsuToSM.convert", keys=5, base="objects", maps=[osu5], setmeta={},
+                  history=[], shift=None, rbm=False))
+    c.append(dict(claim="convert", conv="OsuToSM.convert", keys=5, base="objects", maps=[osu5], setmeta={},
+                  history=[], shift=None, rbm=None))
+    c.append(dict(claim="convert", conv="BMSToQua.convert", keys=6, base="objects", maps=[bms6], setmeta={},
+                  history=[], shift=None, rbm=False))
     return c
 
 
@@ -232,7 +259,9 @@ def valid(case):
             return False
         if case["base"] != "objects" and (game != "o2j" or case["base"] not in ("o2ma120.ojn", "o2ma178.ojn")):
             return False
-        if case["keys"] not in (4, 7):
+        if case["keys"] not in KEYS_OF[game]:
+            return False
+        if case.get("rbm", None) not in (None, True, False) or (case.get("rbm") is not None and case["conv"] not in HAS_RBM):
             return False
         if game not in ("sm", "o2j") and len(case["maps"]) != 1:
             return False
@@ -259,6 +288,10 @@ def valid(case):
                 if type(v) is not type(_META[game][k]) or (isinstance(v, str) and not v.isascii()):
                     return False
             if game == "o2j" and not 0 <= m["meta"]["level"] < 1000:
+                return False
+            if game == "sm" and m["meta"]["chart_type"] not in SM_TYPES.values():
+                return False
+            if game == "osu" and not 1 <= m["meta"]["circle_size"] <= 10:
                 return False
         if game in ("sm", "o2j"):
             if set(case["setmeta"]) != set(_SETMETA[game]):
@@ -617,6 +650,29 @@ def get_converter(conv):
     return getattr(getattr(C, cname), fname)
 
 
+def no_mode(conv, maps):
+    """the target game has no key mode for some source chart (the repo's own tables decide)"""
+    from reamber.quaver.QuaMapMeta import QuaMapMode
+    from reamber.sm.SMMapMeta import SMMapChartTypes
+    try:
+        for m in maps:
+            if conv == "OsuToQua.convert":
+                good = QuaMapMode.get_mode(int(m.circle_size))
+            elif conv == "BMSToQua.convert":
+                good = QuaMapMode.get_mode(int(m.stack().column.max() + 1))
+            elif conv == "SMToQua.convert":
+                good = QuaMapMode.get_mode(int(SMMapChartTypes.get_keys(m.chart_type)))
+            elif conv == "OsuToSM.convert":
+                good = SMMapChartTypes.get_type(m.stack().column.max() + 1)
+            else:
+                good = True
+            if not good:
+                return True
+    except Exception:
+        return True
+    return False
+
+
 def run(case, drv):
     conv = case["conv"]
     fn = get_converter(conv)
@@ -629,8 +685,13 @@ def run(case, drv):
     before = snap_src(game, src)
     kwargs = {}
     params = inspect.signature(fn).parameters
-    if "raise_bad_mode" in params:
-        kwargs["raise_bad_mode"] = False
+    rbm = case.get("rbm", False) if conv in HAS_RBM else None      # (corpus cases written before the flag was generated: False)
+    if "raise_bad_mode" in params and rbm is not None:
+        kwargs["raise_bad_mode"] = rbm
+    unsupported = "raise_bad_mode" in params and no_mode(conv, maps)
+    if unsupported:
+        tags.append("no-mode-in-target")
+    tags.append(f"rbm={rbm}")
     if case["shift"] is not None and "move_right_by" in params:
         kwargs["move_right_by"] = case["shift"]
     try:
@@ -651,7 +712,14 @@ def run(case, drv):
         tags.append("labels-not-fresh")
     kf = None
     detail = {}
-    if impl[0] == "err":
+    if impl[0] == "err" and unsupported and rbm is not False and impl[1] == "value":
+        # the documented guard: the target game has no mode for this key count and the caller did not switch it off
+        ok = after == before
+        agree = True
+        dom = False
+        tags.append("guard-raises")
+        detail = {} if ok else dict(note="source modified", impl=impl)
+    elif impl[0] == "err":
         agree = "err" in model and model["err"] == impl[1]
         ok = False                      # no target chart was produced for a source chart
         detail = dict(impl=impl, model=model if "err" in model else "ok")
